@@ -535,8 +535,13 @@ func (h *recHandler) HandleStart(id, query string, variables map[string]interfac
 }
 func (h *recHandler) HandleStop(id string) {}
 func (h *recHandler) LogError(err error)   {}
-func (h *recHandler) Cancel()              {}
-func (h *recHandler) HandleClose()         {}
+func (h *recHandler) Cancel() {
+	select {
+	case h.events <- "cancel": // beginClosing ran (synchronously, before any later frame is handled)
+	default:
+	}
+}
+func (h *recHandler) HandleClose() {}
 
 type wsDecoderServer struct {
 	srv *httptest.Server
@@ -597,10 +602,27 @@ func (s *wsDecoderServer) realWSDecode(e WSEnv) string {
 	}
 	send(`{"id":"` + sentinelID + `","type":` + jstr(startType(e.Kind)) + `,"payload":{"query":"sentinel"}}`)
 	var got []string
+	cancelled := false
 	for {
 		select {
 		case ev := <-h.events:
+			if ev == "cancel" {
+				cancelled = true
+				continue
+			}
 			if strings.HasPrefix(ev, "(start "+sentinelID+" ") {
+				if cancelled {
+					// the connection began closing before the sentinel was handled: the close frame is on its way
+					select {
+					case c := <-closed:
+						if len(got) > 0 {
+							return fmt.Sprintf("%s after handler calls %q", c, got)
+						}
+						return c
+					case <-time.After(wsTimeout):
+						return "timeout waiting for the close frame"
+					}
+				}
 				conn.WriteControl(websocket.CloseMessage, websocket.FormatCloseMessage(websocket.CloseNormalClosure, ""), time.Now().Add(time.Second))
 				switch len(got) {
 				case 0:
@@ -616,7 +638,9 @@ func (s *wsDecoderServer) realWSDecode(e WSEnv) string {
 			for {
 				select {
 				case ev := <-h.events:
-					got = append(got, ev)
+					if ev != "cancel" && !strings.HasPrefix(ev, "(start "+sentinelID+" ") {
+						got = append(got, ev)
+					}
 					continue
 				default:
 				}
